@@ -24,6 +24,7 @@ RULE = (
     "has been loaded/saved and after each Hypothesis-generated use of the library (load, catalogue-driven edits incl. MetaModule count/mapping "
     "changes, save, reload; byte-mutated files and files with surplus controller values loaded and re-saved). Every comparison / generated use is distinct; non-trivial = "
     "every comparison whose spec side is not an absent/None value"
+    ' Also (added while the seeded-change rounds of DESIGN section 9 ran): Plus: the metadata fingerprint after generated use of the library (after_use) and as built in freshly started interpreters (import_env: -O, -OO, -W error, -X dev, other hash seed, C locale, other first imports, logging opened up before the import).'
 )
 ASSUMPTIONS = [
     "PyYAML parses specs/fileformat.yaml faithfully",
